@@ -55,8 +55,8 @@ var ctxBuilds = []string{"ctx", "ctx-term", "ctx-nocancel", "ctx-waitdelay", "co
 // are three entries apart.
 var ctxPoints = []string{"after-last-write", "mid-write", "after-exit", "mid-write", "after-last-write", "never"}
 
-var ctxStallsQuick = []int{0, 300, 1200, 2500, 3500, 6500}
-var ctxStallsThorough = []int{0, 300, 1200, 1600, 2500, 3500, 5500, 6500, 11000}
+var ctxStallsQuick = []int{0, 300, 1200, 2500, 6500, 21500}
+var ctxStallsThorough = []int{0, 300, 1200, 1600, 2500, 3500, 5500, 6500, 11000, 21500, 32000}
 
 type ctxSpec struct {
 	C           *spec  // the child program
@@ -152,6 +152,18 @@ func genCtx(r *mon.Run, i int) *ctxSpec {
 
 	if i%9 == 4 { // nothing unread at all
 		e.BOut, e.BErr = 0, 0
+	}
+	if e.StallMs >= 20000 {
+		// the longest stall: the command has ended BY ITSELF (nothing is cancelled), one
+		// descriptor is done, the other still has more pending than the relay holds in its hands
+		e.Point = []string{"never", "after-exit"}[b%2]
+		n := []int{40000, 60000, 90000, 98304}[(b/2+c)%4]
+		e.BOut, e.BErr = n, 0
+		if (b+c)%2 == 1 {
+			e.BOut, e.BErr = 0, n
+		}
+		e.WB = [2]int{max(e.BOut, 1), max(e.BErr, 1)}
+		e.WaitDelayMs = 0
 	}
 
 	cs := &spec{Index: i, Mode: "pattern", Flavor: "perl"}
@@ -391,7 +403,7 @@ func runCtx(e *ctxSpec, dir string, bound time.Duration) (res *ctxResult) {
 	consCh := make(chan consOut, 1)
 	go func() { consCh <- consumeCtx(out, e.AOut+e.AErr, &gotN, phase1, resume, e.Drain, stop) }()
 
-	timer := time.NewTimer(bound)
+	timer := time.NewTimer(bound + time.Duration(e.StallMs)*time.Millisecond)
 	defer timer.Stop()
 	var co consOut
 	consDone := false
